@@ -2,6 +2,7 @@ import FCA.Props.C01
 import FCA.Props.C13
 import FCA.Proofs.Assemble
 import FCA.Model.Misc
+import FCA.Props.C09
 import Mathlib.Data.List.Flatten
 /-
 C17 — All results are deterministic across processes and hash seeds.
@@ -54,6 +55,14 @@ theorem C17_maximal_members (cmp : Nat → Nat → Bool) (l l' : List Nat) (h : 
   show x ∈ (if l.eraseDups.length < 2 then l.eraseDups else l.eraseDups.filter fun x => !(l.eraseDups.any fun y => y != x && cmp x y)) ↔
     x ∈ (if l'.eraseDups.length < 2 then l'.eraseDups else l'.eraseDups.filter fun x => !(l'.eraseDups.any fun y => y != x && cmp x y))
   rw [key _ (nodup_eraseDups _), key _ (nodup_eraseDups _), hd x, hany x, hlen]
+
+/-- … and the traversal seeded with them yields the same sequence for every enumeration (and any repeats)
+of the same set of concepts -/
+theorem C17_traversal_seed_order (K : Ctx) (h : K.WF) (cs cs' : List Nat)
+    (hv : ∀ c ∈ cs, c < (mkLattice K).length) (hm : ∀ x, x ∈ cs ↔ x ∈ cs') :
+    upsetUnion (mkLattice K) cs = upsetUnion (mkLattice K) cs' ∧
+    downsetUnion (mkLattice K) cs = downsetUnion (mkLattice K) cs' :=
+  C09_union_congr K h cs cs' hv hm
 
 /-- site `Lattice._annotate` (`for c in touched: c.objects = tuple(c.objects)`): in the model the labels
 of a concept are a function of the context and of its extent alone — no enumeration of touched
